@@ -1,15 +1,14 @@
 (** C16 — statements not (yet) proved.  Only [Definition ..._statement : Prop]; nothing here is
-    used by Properties.v.  Each is exercised by the correspondence run (harness + driver).
-    (Proved since round 1 and moved to Properties.v: full typed canonicity for optional-free
-    types, the typed round trip for normal-form values, Split/CountValues against the encoder, the typed allocation bound.) *)
+    used by Properties.v.
+    Nothing is open at present.  Proved and moved to Properties.v: full typed canonicity for
+    optional-free types, the typed round trip for normal-form values, Split/CountValues against
+    the encoder, the typed allocation bound; round 4: the literal Stream machine against the
+    window decoder (C16_stream_refines_window, for descriptors whose tail tags sit on slices and
+    inputs below 2^64 bytes; the statement without that restriction is refuted,
+    C16_stream_refines_window_illformed_refuted) and the literal encoder buffer against the
+    functional encoder (C16_encbuffer_refines_encode).
+    Outside the model (see props/C16.json): reflect/typecache dispatch, io.Reader streaming without
+    an input limit, Stream operations issued by hand after an error (the correspondence run
+    stops a script at the first error other than EOL). *)
 From Coq Require Import List NArith Bool.
-From Coq Require Import Init.Byte.
 From Kardia Require Import C16.Model.
-Import ListNotations.
-Local Open Scope N_scope.
-
-(** the literal Stream machine and the window decoder accept the same inputs with the same
-    value (the driver checks this on every generated input) *)
-Definition stream_refines_window_statement : Prop :=
-  forall t bs v,
-    (exists s, stream_decode_bytes t bs = SOk v s) <-> (exists a, decode_bytes t bs = Ok v [] a).
